@@ -129,6 +129,12 @@ func c18(r *Report) propMeta {
 	r.Rule("C18.R9", "E19 constructors of x/bandtss/types store their inputs unchanged")
 	r.CtorFaithful("ctor", faithfulCtors["bandtss"]...)
 
+	r.Rule("C18.lint", "E8 module lint: no nondeterminism / process-local state in x/bandtss")
+	r.ModuleLint("module-lint", "bandtss", 20)
+
+	r.Rule("C18.iter", "E14 store-iterator loops run to exhaustion")
+	r.IteratorLoopCensus("iter", []string{"x/tss/", "x/bandtss/"}, nil, 10)
+
 	return propMeta{
 		Decided: []string{
 			"R1 SetCurrentGroup is called only by ExecuteGroupTransition (and genesis), itself only by bandtss EndBlocker under ShouldExecuteGroupTransition's ok; transitions are created only by the two governance handlers; store keys have single writers",
@@ -140,6 +146,8 @@ func c18(r *Report) propMeta {
 			"R7 DeleteMembers(current) on execution; AddMembers(incoming) precedes every WAITING_EXECUTION",
 			"R8 every KV-store Get/Has/Delete of x/bandtss uses a key builder of x/bandtss/types that some Set of the module also uses (a probe of an iteration prefix or of a sibling family is always-empty state)",
 			"R9 the literal constructors of x/bandtss/types (frozen list) store each parameter or a constant unchanged in the record they build: what a handler validated is what is stored",
+			"lint: the determinism lint (incl. writes to memory held by long-lived objects) over everything reachable from the handlers and blockers of x/bandtss",
+			"iter: every KV-store iterator loop of the module's keeper runs until the iterator is exhausted (header is the bare Valid() test, no other way out but panic / error return), except reviewed early stops (seed C18-7 capped the member listing at MaxGroupSize)",
 		},
 		Undecided: []string{"interleavings of callbacks, deadlines and concurrent requests (schedule/history)", "that tss actually invokes the callbacks it should"},
 		Assume:    []string{"VTA resolves the tss callback router to bandtss TSSCallback", "msg handlers atomic; governance authority check by address equality"},
